@@ -78,8 +78,8 @@ def evalExpr (w : World) (s : EvalSt) (h : Nat) : Except EvalErr (Coef × EvalSt
           | some v => .ok (v, { s with exVal := (h, v) :: s.exVal })
           | Option.none => .error .valueError
 
-/-- `Constraint.eval()`: the `except ValueError("…")` clause turns a `ValueError` of the
-expression into a `TypeError` -/
+/-- `Constraint.eval()`: a `ValueError` of the expression is re-raised as the constraint's own
+`ValueError` (`except ValueError:`) -/
 def evalCons (w : World) (s : EvalSt) (h : Nat) : Except EvalErr (Coef × EvalSt) :=
   match s.consVal.lookup h with
   | some v => .ok (v, s)
@@ -89,7 +89,7 @@ def evalCons (w : World) (s : EvalSt) (h : Nat) : Except EvalErr (Coef × EvalSt
     | some c =>
       match evalExpr w s c.e with
       | .ok (v, s') => .ok (v, { s' with consVal := (h, v) :: s'.consVal })
-      | .error _ => .error .typeError
+      | .error _ => .error .valueError
 
 /-- `Constraint.eval_dual()` -/
 def evalDual (s : EvalSt) (h : Nat) : Except EvalErr Coef :=
@@ -126,9 +126,6 @@ def evalPointNormSq (w : World) (s : EvalSt) (h : Nat) : Except EvalErr (Coef ×
         match s.last with
         | Option.none => if p.d.isEmpty then .ok (0, s) else .error .valueError
         | some sol =>
-          -- `np.zeros(Point.counter)` is added to leaf values of length `nP at the solve`:
-          -- after a new leaf point has been created the shapes differ and numpy raises ValueError
-          if w.nP != sol.nP && !p.d.isEmpty then .error .valueError else
           match normAt sol with
           | some v => .ok (v, { s with ptEpoch := (h, s.sols.size - 1) :: s.ptEpoch })
           | Option.none => .error .valueError
